@@ -155,6 +155,7 @@ structure St where
   nextSeq : List (Nat × Nat)
   acks : List ((Nat × Nat) × Bool)
   log : List LogE
+  restored : List ((Nat × Nat) × Addr)   -- ghost: commitments restored by a hard fork, with the refund address committed to
   deriving Repr, Inhabited
 
 inductive Err
@@ -533,9 +534,8 @@ def releaseEffect (s : St) (p : Packet) : St × Bool :=
   | .onTimeout => refundRelease s p
   | .undefined => (s, false)
 
-/-- `RestoreOriginalTransferTarget`.  The Go method has a value receiver but writes the restored data
-    through the shared `Packet` pointer, so the caller's packet is rewritten as well: after the call
-    the packet names the original recipient again. -/
+/-- `RestoreOriginalTransferTarget`: the packet as the hub first saw it (the returned copy is what
+    `writeRecvAck` acknowledges and what `OnHardFork` commits to; the caller's packet is untouched) -/
 def restoreTarget (p : Packet) : Packet :=
   match p.orig with
   | some o => { p with target := o }
@@ -550,10 +550,8 @@ def updateAfterFinalization (s : St) (p : Packet) : M St :=
         (pkey p) (pkey (flipped p)) .finalized)
 
 /-- the packet as `finalizeRollappPacket` hands it to `UpdateRollappPacketAfterFinalization`:
-    `writeRecvAck` restored the original transfer target in place (aliasing, see `restoreTarget`),
-    `Error` is set when the callback failed -/
-def finalizedRecord (p : Packet) (failed : Bool) : Packet :=
-  { (if p.ptype == .onRecv then restoreTarget p else p) with failed := p.failed || failed }
+    `Error` is set when the callback failed; it still names the current beneficiary -/
+def finalizedRecord (p : Packet) (failed : Bool) : Packet := { p with failed := p.failed || failed }
 
 /-- `FinalizeRollappPacket` -/
 def finalizePacket (s : St) (k : Bytes) : M St :=
@@ -851,14 +849,16 @@ def epochCleanup (s : St) : St :=
   (s.packets.filter (·.status == .finalized)).foldl deletePacket s
 
 /-- delayedack `OnHardFork`: pending packets of the rollapp with proof height in
-    `[lastValid+1, 2^64-1)` are deleted; commitments restored / receipts cleared -/
+    `[lastValid+1, 2^64-1)` are deleted; commitments restored / receipts cleared.
+    The restored commitment is that of the packet with its original transfer target
+    (`CommitPacket(RestoreOriginalTransferTarget().Packet)`): `restored` is the ghost record of whose
+    refund it stands for. -/
 def revertIbc (s : St) (p : Packet) : St :=
   if p.ptype == .onRecv then { s with receipts := s.receipts.filter (· != (p.chan, p.seq)) }
-  else { s with commits := if s.commits.contains (p.chan, p.seq) then s.commits else s.commits ++ [(p.chan, p.seq)] }
+  else { s with commits := if s.commits.contains (p.chan, p.seq) then s.commits else s.commits ++ [(p.chan, p.seq)],
+                restored := s.restored ++ [((p.chan, p.seq), (restoreTarget p).target)] }
 
-def revertPacket (s : St) (p : Packet) : St :=
-  -- the commitment is computed from `RestoreOriginalTransferTarget()`, which rewrites the packet in place
-  deletePacket (revertIbc s p) (if p.ptype == .onRecv then p else restoreTarget p)
+def revertPacket (s : St) (p : Packet) : St := deletePacket (revertIbc s p) p
 
 def forkRange (rid : Bytes) (lastValid : Nat) (k : Bytes) : Bool :=
   inRange (pendingFromHeightRange rid ((lastValid + 1) % 2 ^ 64)).1 (pendingFromHeightRange rid ((lastValid + 1) % 2 ^ 64)).2 k
@@ -964,6 +964,6 @@ def initSt (nActors : Nat) (fund : Int) (bridgingFee timeoutFee errAckFee : Dec)
     chans := chans, ras := [{ id := ra0, heights := [], nFin := 0 }, { id := ra1, heights := [], nFin := 0 }],
     packets := [], byAddr := [], orders := [], lps := [], nextLp := 0, grants := [],
     bal := (List.range nActors).flatMap (fun a => (List.range 5).map (fun d => ((a, d), fund))), accts := List.range nActors,
-    receipts := [], commits := [], sent := [], nextSeq := [], acks := [], log := [] }
+    receipts := [], commits := [], sent := [], nextSeq := [], acks := [], log := [], restored := [] }
 
 end DymVerif.Packets
